@@ -33,6 +33,8 @@ func ConfigByName(name string) Config {
 		case "shadow":
 			c.ShadowNames = true
 			c.MinFiles, c.MaxFiles = 2, 3
+		case "i8":
+			c.I8Type = true
 		case "big":
 			c.MaxFiles, c.MinFiles, c.MaxTypes, c.MaxServices, c.MaxScopes = 6, 3, 14, 3, 3
 		}
